@@ -159,6 +159,17 @@ def h_hist(t, part):
         return Fail('ack:late-callback', repr(fired[nfired:]))
     t.reached('history')
     t.note('steps', part['n'], 'acks matched', nontriv)
+    # epilogue: every callback that is still outstanding according to the model is answered now, and must run exactly once
+    for (e, ns), sid in sorted(live.items()):
+        if sid is None:
+            continue
+        for i in sorted(model.get(sid, {})):
+            tag = model[sid].pop(i)
+            nfired = len(fired)
+            w.send(e, w.P(packet.ACK, data=[9], namespace=ns, id=i))
+            if fired[nfired:] != [(tag, (9,))]:
+                return Fail('ack:outstanding-callback-lost', 'the callback %r (id %r, %s%s) was still outstanding after the history; '
+                            'its acknowledgement fired %r' % (tag, i, e, ns, fired[nfired:]))
     return None
 
 
